@@ -110,15 +110,22 @@ def make_rec(src_root, recipe):
     return out, onodes, snodes, leafmap, rec
 
 
-def stub_measure(tex_mod, seed):
+def stub_size(seed, text):
     import random
 
+    r = random.Random(f"{seed}:{text}")
+    return (r.choice([3.0, 7.5, 12.25, 20.0]), r.choice([2.0, 5.5, 9.0]), r.choice([0.0, 1.5]))
+
+
+def stub_measure(tex_mod, seed, log=None):
     def measure(texts, preamble=""):
         texts = list(texts)
         out = []
         for t in texts:
-            r = random.Random(f"{seed}:{t}")
-            out.append(tex_mod.MeasureBox(width=r.choice([3.0, 7.5, 12.25, 20.0]), height=r.choice([2.0, 5.5, 9.0]), depth=r.choice([0.0, 1.5])))
+            w, h, d = stub_size(seed, t)
+            out.append(tex_mod.MeasureBox(width=w, height=h, depth=d))
+        if log is not None:
+            log.append(texts)
         return out
 
     return measure
@@ -134,12 +141,15 @@ def run_render(src_root, recipe):
     params = rmodel.DrawParams(orientation=getattr(rmodel.Orientation, recipe.get("orientation", "VERTICAL")),
                                event_label_width=recipe.get("label_width", 18), species_label_width=recipe.get("species_label_width", 21))
     saved = tex.measure
-    tex.measure = stub_measure(tex, recipe.get("sizes_seed", 0))
+    log = []
+    tex.measure = stub_measure(tex, recipe.get("sizes_seed", 0), log)
     try:
         lay = layout_mod.compute(out, params)
         text = tikz.render(out, lay, params)
     finally:
         tex.measure = saved
+    params = params._replace()  # (same object; the measured texts are attached to the layout for the size check)
+    run_render.last_measured = log
     return out, onodes, snodes, leafmap, rec, lay, text, params
 
 
@@ -217,6 +227,25 @@ def check_c13(recipe, src_root):
         k = lay[rec[u]].branches[u].kind.name
         if k != kinds[u]:
             return f"event node of {u.name} is a {k}, the evaluator's model says {kinds[u]}"
+    # sizes: the layout must give every event node the size the measurer returned for that node's own box (answers come in
+    # the order of the nodes given); checked for the nodes whose (kind, label) is unique so that the box text identifies them
+    measured = [t for batch in getattr(run_render, "last_measured", []) for t in batch]
+    seed = recipe.get("sizes_seed", 0)
+    labels = {}
+    for s in snodes:
+        for a, b in lay[s].branches.items():
+            labels.setdefault((b.kind.name, b.name), []).append(b)
+    for (kind, name), bs in labels.items():
+        if len(bs) != 1 or kind == "FULL_LOSS":
+            continue
+        mine = [t for t in measured if ("{" + name + "}") in t and {"LEAF": "extant gene", "SPECIATION": "[speciation]", "DUPLICATION": "[duplication]",
+                                                                  "HORIZONTAL_TRANSFER": "[horizontal gene transfer]"}[kind] in t]
+        if len(set(mine)) != 1:
+            continue
+        w, h, d = stub_size(seed, mine[0])
+        r = bs[0].rect
+        if not (close(r.w, w) and close(r.h, h + d)):
+            return f"event node {name!r} ({kind}) has size {r.w}x{r.h} in the layout; the measurer returned {w}x{h + d} for its box (sizes must be used in the order of the nodes given)"
     # (b) one loss marker per counted full loss, in the species where it occurs
     for s in snodes:
         got = [(a, b) for a, b in lay[s].branches.items() if a not in oset]
